@@ -91,7 +91,7 @@ Example C04_attribution_witness :
           (c_ms (run c11w_init c11w_ops)) = true.
 Proof. vm_compute. reflexivity. Qed.
 
-From Sge Require Import Gen.kernels Proofs.GenKernels.
+From Sge Require Import Gen.kernels Proofs.GenOb Proofs.GenHouse.
 (* "never received any stake" (fee back to the depositor) is the Go method NotParticipatedInBetFulfillment, and the house fee is
    CalcHouseParticipationFeeAmount: generated from the sources on every run *)
 Theorem C04_kernels_generated : forall p creator dep mkt idx amount wc wt fee,
